@@ -239,6 +239,9 @@ type snapStream struct {
 	err       error
 	link      *Link
 	linkGen   int64
+	cluster   *Cluster
+	follower  string
+	term      int64
 }
 
 type snapClient struct{ s *snapStream }
@@ -304,6 +307,10 @@ func (c snapServer) Recv() (*proto.SnapshotChunk, error) {
 }
 
 func (c snapServer) SendAndClose(r *proto.SnapshotResponse) error {
+	if c.s.cluster != nil {
+		// where replication is expected to continue from
+		c.s.cluster.Log(Event{Kind: "snapshot-ack", Node: c.s.follower, Term: c.s.term, Offset: r.AckOffset})
+	}
 	select {
 	case c.s.resp <- r:
 		return nil
